@@ -32,7 +32,7 @@ func main() { hx.Main("C04", run) }
 
 // An Ev is one step of a history.
 type Ev struct {
-	K   string     `json:"k"` // op | spawn | poll | pool | reg | cancel
+	K   string     `json:"k"` // op | spawn | poll | pool | reg | cancel | blind
 	Op  *mgrsim.Op `json:"op,omitempty"`
 	Sub int        `json:"sub"`
 	Max int        `json:"max,omitempty"`
@@ -50,6 +50,9 @@ type Ev struct {
 	// reg / cancel: listener life cycle. reg registers listener L with OnReorg (or OnPoolChange if
 	// Pool); with Reenter the callback calls back into the manager (Tip, PoolTransactions, and for a
 	// reorg listener UpdatesSince from its own index); cancel calls L's cancel function
+	// blind: Ops are called one after the other with no read in between, then subscriber Sub polls
+	// with Max as the first read
+	Ops     []mgrsim.Op `json:"ops,omitempty"`
 	L       int  `json:"l,omitempty"`
 	Pool    bool `json:"pool,omitempty"`
 	Reenter bool `json:"reenter,omitempty"`
@@ -86,6 +89,7 @@ type sub struct {
 	bogus bool
 	coqID int // for bogus ids
 	chunk int // chunk size used in the final phase
+	forged bool // the id of a held block with a height that is not the block's
 	rec   bool // the recorder: follows the node block by block and keeps the ledger it held at every index
 }
 
@@ -120,6 +124,7 @@ type world struct {
 	lsts      map[int]*lst
 	lorder    []int
 	dead      bool // the manager deadlocked: the node is abandoned
+	blindNow  bool // inside an unobserved stretch: listeners do not read either
 	snap     map[int]*chaingen.Ledger // the ledger a subscriber of this node held when it stood on block x
 	ops      []mgrsim.Op
 	f8At     int  // number of ops the expiry-order classification below was made for
@@ -307,6 +312,19 @@ func (w *world) spawn(ev Ev) {
 	case ev.At == -1:
 		w.subs[ev.Sub] = &sub{l: chaingen.NewLedger()}
 		w.stats["subscribers-from-nothing"]++
+	case ev.At == -3:
+		// the id of a block the store holds (H names the tree block), with a height that is not its own
+		x := int(ev.H)
+		if x <= 0 || x >= len(w.t.Nodes) || !w.everBest[x] || !w.prev.Known[x].Body {
+			return
+		}
+		n := w.t.Nodes[x]
+		h := n.Height + 1 + uint64(ev.Sub%3)
+		if ev.Sub%2 == 0 && n.Height > 0 {
+			h = n.Height - 1
+		}
+		w.subs[ev.Sub] = &sub{idx: types.ChainIndex{Height: h, ID: n.ID}, forged: true}
+		w.stats["subscribers-forged-height"]++
 	case ev.At == -2:
 		var id types.BlockID
 		rng.New(uint64(ev.Sub)*7919 + 13).Bytes(id[:])
@@ -381,8 +399,52 @@ func (w *world) poll(id int, max int) {
 	if !w.guarded(fmt.Sprintf("UpdatesSince(%v, %d)", sb.idx, max), func() { rus, aus, err = w.s.CM.UpdatesSince(sb.idx, max) }) {
 		return
 	}
+	w.judge(sb, max, rus, aus, err)
+}
+
+// judge evaluates the monitors on one UpdatesSince result (the store view w.prev is the one
+// observed after the last state change).
+func (w *world) judge(sb *sub, max int, rus []chain.RevertUpdate, aus []chain.ApplyUpdate, err error) {
 	w.stats["polls"]++
+	switch {
+	case max >= 1<<31:
+		w.stats["polls-with-a-chunk-size-no-slice-can-have"]++
+	case max <= 0:
+		w.stats["polls-with-a-chunk-size-below-one"]++
+	}
 	before := sb.idx
+	if max <= 0 {
+		// outside the property's quantifier (chunk size >= 1): the call must still not panic (guarded)
+		// and must not hand out anything
+		if err == nil && len(rus)+len(aus) > 0 {
+			w.report("c04-updates-for-a-nonpositive-quota", "UpdatesSince(%v, %d) returned %d reverts and %d applies", sb.idx, max, len(rus), len(aus))
+		}
+		if err == nil && !sb.rec {
+			w.coq = append(w.coq, fmt.Sprintf("EPoll %s 0 (Some ([], [], %s))", w.coqIdx(before, sb.coqID), w.coqIdx(before, sb.coqID)))
+		}
+		return
+	}
+	if sb.forged {
+		// an index with the id of a held block and a height that is not the block's: nothing is
+		// promised for it beyond "no panic, no deadlock"; the model computes the same thing
+		w.stats["polls-forged-height"]++
+		if err != nil {
+			w.coq = append(w.coq, fmt.Sprintf("EPoll %s %d None", w.coqIdx(before, 0), coqMax(max)))
+			return
+		}
+		after := before
+		var rids, aids []string
+		for _, ru := range rus {
+			rids = append(rids, fmt.Sprint(w.nodeOf(types.ChainIndex{ID: ru.Block.ID()})))
+			after = ru.State.Index
+		}
+		for _, au := range aus {
+			aids = append(aids, fmt.Sprint(w.nodeOf(au.State.Index)))
+			after = au.State.Index
+		}
+		w.coq = append(w.coq, fmt.Sprintf("EPoll %s %d (Some ([%s], [%s], %s))", w.coqIdx(before, 0), coqMax(max), strings.Join(rids, "; "), strings.Join(aids, "; "), w.coqIdx(after, 0)))
+		return
+	}
 	if sb.bogus {
 		_, held := w.s.Store.Header(sb.idx.ID)
 		applied := false // has the block been applied by now (then it is a reachable index after all)
@@ -468,6 +530,17 @@ func (w *world) poll(id int, max int) {
 	if len(rus)+len(aus) == max && max < dist {
 		w.stats["chunks-cut-by-max"]++
 	}
+	switch {
+	case dist == 0:
+		w.stats["polls-at-the-tip"]++
+	case max == dist:
+		w.stats["chunks-with-max-equal-to-the-distance"]++
+	case max == dist-1 || max == dist+1:
+		w.stats["chunks-with-max-one-off-the-distance"]++
+	}
+	if len(revs) > 0 && len(rus) == len(revs) && len(aus) == 0 {
+		w.stats["chunks-ending-exactly-at-the-fork-point"]++
+	}
 	if !expectErr && len(rus)+len(aus) != want {
 		w.report("c04-chunk-stops-early", "UpdatesSince(%v [block %d], %d) returned %d updates; the path to the tip has %d (reverts %v, applies %v)", sb.idx, w.nodeOf(sb.idx), max, len(rus)+len(aus), dist, revs, apps)
 		return
@@ -550,6 +623,91 @@ func (w *world) poll(id int, max int) {
 			w.stats["ledger-comparisons-at-tip"]++
 		}
 	}
+	// history dependence: what one subscriber does with the objects it was handed must not show in
+	// what the next caller gets. The chunk is digested, scribbled over, and asked for again.
+	if len(rus)+len(aus) > 0 && w.stats["polls"]%3 == 0 && w.fail == nil {
+		want := subs.DigestChunk(rus, aus)
+		subs.Scribble(rus, aus)
+		var r2 []chain.RevertUpdate
+		var a2 []chain.ApplyUpdate
+		var e2 error
+		if !w.guarded(fmt.Sprintf("UpdatesSince(%v, %d) again", before, max), func() { r2, a2, e2 = w.s.CM.UpdatesSince(before, max) }) {
+			return
+		}
+		w.stats["re-polls-after-scribbling-over-the-returned-updates"]++
+		if e2 != nil {
+			w.report("c04-repeated-poll-differs", "UpdatesSince(%v, %d) succeeded, the same call repeated at once failed: %v", before, max, e2)
+		} else if got := subs.DigestChunk(r2, a2); got != want {
+			w.report("c04-returned-updates-alias-manager-state", "UpdatesSince(%v [block %d], %d) was asked twice with no submission in between; after the first result (%d reverts, %d applies) was overwritten by its receiver, the second result differs from what the first one was: the manager hands out memory it keeps using", before, w.nodeOf(before), max, len(rus), len(aus))
+		}
+	}
+}
+
+// blind runs a stretch of manager calls with no read in between (lazily maintained state must not
+// depend on being looked at); the first read afterwards is the subscriber's UpdatesSince, and only
+// then is the store observed and the result judged.
+func (w *world) blind(ev Ev) {
+	sb := w.subs[ev.Sub]
+	if sb == nil || sb.bogus || sb.forged || sb.rec {
+		return
+	}
+	w.blindNow = true
+	for _, op := range ev.Ops {
+		var o mgrsim.Obs
+		if !w.guarded(op.String()+" (unobserved)", func() { o = w.s.Call(op) }) {
+			w.blindNow = false
+			return
+		}
+		if o.Panic {
+			w.blindNow = false
+			w.report("c04-panic", "%v panicked: %s", op, o.ErrText)
+			return
+		}
+		if op.Kind == "prune" {
+			w.pruned = true
+		}
+		w.ops = append(w.ops, op)
+		w.coq = append(w.coq, "EOpBlind ("+mgrsim.CoqOp(w.t, op)+")")
+		w.stats["calls-without-any-read-afterwards"]++
+	}
+	var rus []chain.RevertUpdate
+	var aus []chain.ApplyUpdate
+	var err error
+	ok := w.guarded(fmt.Sprintf("UpdatesSince(%v, %d) as the first read after %d calls", sb.idx, ev.Max, len(ev.Ops)), func() { rus, aus, err = w.s.CM.UpdatesSince(sb.idx, ev.Max) })
+	w.blindNow = false
+	if !ok {
+		return
+	}
+	w.stats["polls-as-the-first-read-after-unobserved-calls"]++
+	var o mgrsim.Obs
+	if !w.guarded("observing the store", func() { w.s.Observe(&o) }) {
+		return
+	}
+	for _, id := range o.Best {
+		if id >= 0 {
+			w.everBest[id] = true
+		}
+	}
+	ro := o
+	ro.Known = append([]mgrsim.KnownEntry(nil), o.Known...)
+	for i, k := range ro.Known {
+		if k.State == 1 && w.fullButDifferent(w.t.Nodes[k.ID]) {
+			ro.Known[i].State = 2
+		}
+	}
+	w.coq = append(w.coq, "ESee ("+mgrsim.CoqObs(ro)+")")
+	w.prev = o
+	for _, id := range w.lorder { // notifications inside the stretch are not judged one by one
+		l := w.lsts[id]
+		l.seen, l.pending = len(l.tips), nil
+		if l.pool {
+			l.seen = l.n
+		}
+	}
+	w.judge(sb, ev.Max, rus, aus, err)
+	if w.fail == nil {
+		w.follow()
+	}
 }
 
 func (w *world) nodeOf(ci types.ChainIndex) int {
@@ -582,7 +740,7 @@ func (w *world) finish(r *rng.R) {
 	sortInts(ids)
 	for _, id := range ids {
 		sb := w.subs[id]
-		if sb.bogus || sb.rec {
+		if sb.bogus || sb.rec || sb.forged {
 			continue
 		}
 		if sb.chunk == 0 {
@@ -590,6 +748,13 @@ func (w *world) finish(r *rng.R) {
 		}
 		revs, apps := w.needed(sb)
 		dist := len(revs) + len(apps)
+		// boundary sizes: exactly the reverts (the chunk ends on the fork point), exactly the distance, one off
+		if dist > 1 && r.Chance(1, 3) {
+			c := []int{dist, dist - 1, dist + 1, len(revs)}[r.Intn(4)]
+			if c >= 1 {
+				sb.chunk = c
+			}
+		}
 		polls := 0
 		for sb.idx != tip && w.fail == nil && polls <= dist {
 			w.poll(id, sb.chunk)
@@ -641,6 +806,8 @@ func runCase(cs Case, t *chaingen.Tree) *world {
 			w.register(ev)
 		case "cancel":
 			w.cancelListener(ev)
+		case "blind":
+			w.blind(ev)
 		}
 		if w.fail != nil {
 			return w
@@ -652,12 +819,40 @@ func runCase(cs Case, t *chaingen.Tree) *world {
 	return w
 }
 
+// validatedSegment picks the still unknown part of the path to a random valid block if it
+// satisfies the precondition of AddValidatedV2Blocks (v2 blocks at or above the require height).
+func validatedSegment(r *rng.R, t *chaingen.Tree, w *world) (mgrsim.Op, bool) {
+	x := t.Nodes[1+r.Intn(len(t.Nodes)-1)]
+	if !x.ChainValid() {
+		return mgrsim.Op{}, false
+	}
+	path := t.Path(x)
+	from := len(path) - 1
+	for j, y := range path {
+		if w.prev.Known[y.Idx].State == 0 {
+			from = j
+			break
+		}
+	}
+	var ids []int
+	for _, y := range path[from:] {
+		if y.Block.V2 == nil || y.Height < t.Env.Net.HardforkV2.RequireHeight || y.TwinOf != nil {
+			return mgrsim.Op{}, false
+		}
+		ids = append(ids, y.Idx)
+	}
+	return mgrsim.Op{Kind: "addv", Nodes: ids}, true
+}
+
 // genCase generates a history: it runs the plan on a scratch manager to know which indices
 // a subscriber can hold at each point.
 func genCase(r *rng.R, regime int, prunes bool) Case {
 	cs := Case{Seed: r.U64(), Regime: regime, Final: true, Opts: chaingen.GenOpts{Blocks: 5 + r.Intn(16), Branchiness: 2 + r.Intn(4), TxPerBlock: r.Intn(4), Corruptions: r.Intn(3), Jitter: r.Intn(4), OnInvalid: r.Intn(2)}}
 	if regime >= 3 && r.Bool() {
 		cs.Opts.Jitter = 4000
+	}
+	if r.Chance(1, 4) {
+		cs.Opts.Remine = 2 // sibling branches confirm the same transactions (same ids, other proofs)
 	}
 	t := cs.safeTree()
 	for t == nil {
@@ -682,6 +877,8 @@ func genCase(r *rng.R, regime int, prunes bool) Case {
 			w.register(ev)
 		case "cancel":
 			w.cancelListener(ev)
+		case "blind":
+			w.blind(ev)
 		}
 	}
 	if r.Bool() { // a subscriber that syncs from inside its reorg callback
@@ -692,7 +889,26 @@ func genCase(r *rng.R, regime int, prunes bool) Case {
 	nsub++
 	var live []int
 	live = append(live, 0)
-	for i := range plan {
+	for i := 0; i < len(plan); i++ {
+		// a stretch of calls with no read in between, then a subscriber's poll as the first read
+		if r.Chance(1, 6) && i+1 < len(plan) {
+			k := 1 + r.Intn(3)
+			if i+k > len(plan) {
+				k = len(plan) - i
+			}
+			ops := append([]mgrsim.Op(nil), plan[i:i+k]...)
+			// often the stretch ends with a pre-validated segment, so that the last tip change comes
+			// through AddValidatedV2Blocks with nobody looking
+			if av, ok := validatedSegment(r, t, w); ok && r.Bool() {
+				ops = append(ops, av)
+			}
+			add(Ev{K: "blind", Ops: ops, Sub: live[r.Intn(len(live))], Max: chunkSizes[r.Intn(len(chunkSizes))]})
+			i += k - 1
+			if w.fail != nil {
+				break
+			}
+			continue
+		}
 		op := plan[i]
 		bestBefore := append([]int(nil), w.prev.Best...)
 		add(Ev{K: "op", Op: &op})
@@ -752,30 +968,10 @@ func genCase(r *rng.R, regime int, prunes bool) Case {
 		// tip changes must also arrive through AddValidatedV2Blocks: the unknown part of the path to a
 		// valid block, if it consists of v2 blocks at or above the require height (its precondition)
 		if r.Chance(1, 4) {
-			x := t.Nodes[1+r.Intn(len(t.Nodes)-1)]
-			if x.ChainValid() {
-				path := t.Path(x)
-				from := len(path) - 1
-				for j, y := range path {
-					if w.prev.Known[y.Idx].State == 0 {
-						from = j
-						break
-					}
-				}
-				ok := true
-				var ids []int
-				for _, y := range path[from:] {
-					if y.Block.V2 == nil || y.Height < t.Env.Net.HardforkV2.RequireHeight || y.TwinOf != nil {
-						ok = false
-					}
-					ids = append(ids, y.Idx)
-				}
-				if ok {
-					av := mgrsim.Op{Kind: "addv", Nodes: ids}
-					add(Ev{K: "op", Op: &av})
-					if w.fail != nil {
-						break
-					}
+			if av, ok := validatedSegment(r, t, w); ok {
+				add(Ev{K: "op", Op: &av})
+				if w.fail != nil {
+					break
 				}
 			}
 		}
@@ -789,7 +985,11 @@ func genCase(r *rng.R, regime int, prunes bool) Case {
 		}
 		// polls of existing subscribers
 		for k := r.Intn(3); k > 0; k-- {
-			add(Ev{K: "poll", Sub: live[r.Intn(len(live))], Max: chunkSizes[r.Intn(len(chunkSizes))]})
+			max := chunkSizes[r.Intn(len(chunkSizes))]
+			if r.Chance(1, 12) {
+				max = -r.Intn(2) * (1 + r.Intn(5)) // 0 or negative: outside the quantifier, must be harmless
+			}
+			add(Ev{K: "poll", Sub: live[r.Intn(len(live))], Max: max})
 		}
 		switch r.Intn(9) {
 		case 0, 1: // a subscriber at an index the store still holds (often on a stale branch)
@@ -815,6 +1015,18 @@ func genCase(r *rng.R, regime int, prunes bool) Case {
 			add(Ev{K: "spawn", Sub: nsub, At: -1})
 			live = append(live, nsub)
 			nsub++
+		case 5: // the id of a held block with a height that is not its own
+			var cands []int
+			for x, k := range w.prev.Known {
+				if x > 0 && w.everBest[x] && k.Body {
+					cands = append(cands, x)
+				}
+			}
+			if len(cands) > 0 {
+				add(Ev{K: "spawn", Sub: nsub, At: -3, H: uint64(cands[r.Intn(len(cands))])})
+				add(Ev{K: "poll", Sub: nsub, Max: chunkSizes[r.Intn(len(chunkSizes))]})
+				nsub++
+			}
 		case 3, 4: // an id the store never held, or a block no subscriber can have reached
 			if r.Chance(1, 3) {
 				add(Ev{K: "spawn", Sub: nsub, At: -2, H: uint64(r.Intn(len(w.prev.Best) + 2))})
@@ -930,6 +1142,12 @@ func evString(ev Ev) string {
 		return fmt.Sprintf("register(listener %d pool=%v reenter=%v)", ev.L, ev.Pool, ev.Reenter)
 	case "cancel":
 		return fmt.Sprintf("cancel(listener %d)", ev.L)
+	case "blind":
+		var ops []string
+		for _, op := range ev.Ops {
+			ops = append(ops, op.String())
+		}
+		return fmt.Sprintf("unobserved(%s) then poll(sub %d, max %d)", strings.Join(ops, ", "), ev.Sub, ev.Max)
 	}
 	return fmt.Sprintf("poll(sub %d, max %d)", ev.Sub, ev.Max)
 }
@@ -1058,6 +1276,9 @@ func run(c *hx.Ctx) {
 		js, _ := json.Marshal(cs)
 		res.Eval(string(js), w.stats["chunks-with-reverts"] > 0 && w.stats["chunks-cut-by-max"] > 0)
 		res.Count("regime:" + chaingen.RegimeNames[cs.Regime])
+		if cs.Opts.Remine > 0 {
+			res.Count("histories-over-trees-with-re-mined-transactions")
+		}
 		for k, v := range w.stats {
 			res.CountN(k, v)
 		}
